@@ -25,7 +25,7 @@ func isDecoderCall(c ssa.CallInstruction) bool {
 	if IsCallTo(c, "net/url.PathUnescape", "net/url.QueryUnescape") {
 		return true
 	}
-	if sc := c.Common().StaticCallee(); sc != nil && sc.Pkg != nil && sc.Pkg.Pkg.Path() == RootPath && sc.Name() == "pathUnescape" {
+	if sc := c.Common().StaticCallee(); sc != nil && sc.Pkg != nil && sc.Pkg.Pkg.Path() == RootPath && N(sc) == "pathUnescape" {
 		return true
 	}
 	return false
@@ -36,14 +36,14 @@ func encodingClass(l Leaf) string {
 	switch l.Kind {
 	case "load":
 		if l.Field != nil && l.Field.Pkg() != nil && l.Field.Pkg().Path() == "net/url" {
-			switch l.Field.Name() {
+			switch N(l.Field) {
 			case "Path":
 				return "decoded"
 			case "RawPath", "RawQuery":
 				return "raw"
 			}
 		}
-		if l.Field != nil && l.Field.Pkg() != nil && l.Field.Pkg().Path() == "net/http" && l.Field.Name() == "RequestURI" {
+		if l.Field != nil && l.Field.Pkg() != nil && l.Field.Pkg().Path() == "net/http" && N(l.Field) == "RequestURI" {
 			return "raw"
 		}
 	case "call":
@@ -283,7 +283,7 @@ func runC06(c *Ctx) {
 			n := 0
 			for _, l := range Origins(rpcLookup.Index) {
 				n++
-				if !(l.Kind == "load" && l.Field != nil && l.Field.Name() == "Path" && len(l.Ops) == 0) {
+				if !(l.Kind == "load" && l.Field != nil && N(l.Field) == "Path" && len(l.Ops) == 0) {
 					okKey = false
 				}
 			}
@@ -477,7 +477,7 @@ func runC06(c *Ctx) {
 	}
 	checkNoOverwrite(insert, func(mu *ssa.MapUpdate) bool {
 		n, ok := mu.Map.Type().(*types.Named)
-		return ok && n.Obj().Name() == "routeMethods"
+		return ok && N(n.Obj()) == "routeMethods"
 	}, "route-entry")
 	checkNoOverwrite(regMethod, func(mu *ssa.MapUpdate) bool { return LoadedField(mu.Map) == methodsFld }, "method-entry")
 }
